@@ -112,6 +112,11 @@ def parseOOp (members : List String) (j : Json) : R OOp := do
     let ws ← (← arr wB).mapM (wresWith (·.getInt?))
     return .writeStructO (← parseDict v) (← wresWith parseDict wA) (fun m => ((members.zip ws).lookup m).getD (.fail .secop))
       (← parseOverlap ov)
+  | [.str "readMemberO", m, rA, iv] =>
+    return .readMemberO (← m.getStr?) (← rresWith parseDict rA) (← (← arr iv).mapM parseAOps)
+  | [.str "writeMemberO", m, v, wA, rA, rB, iv] =>
+    return .writeMemberO (← m.getStr?) (← v.getInt?) (← wresWith parseDict wA) (← rresWith parseDict rA)
+      (← rresWith (·.getInt?) rB) (← (← arr iv).mapM parseAOps)
   | _ => throw s!"bad overlapped struct op {j.compress}"
 
 /-! float/enum -/
